@@ -17,7 +17,9 @@ def c10(tier, seed):
     # states in which the slicer must refuse (lazy lexemes next to greedy ones) get extra weight
     lazy = [g for g in gs if g[1]["kind"] == "lark" and ("[lazy" in g[1]["text"] or "suffix=" in g[1]["text"])]
     strs = [g for g in gs if g[1]["kind"] == "json"]
-    return rel.check_rel("C10", tier, seed, 240, 4000, grammars=gs + lazy * 6 + strs,
+    # lexemes mixing character classes, where custom slice lists (siblings, nested slices) apply only partly
+    mix = [g for g in gs if g[0].startswith("class_mix") or g[0] in ("keywords",)]
+    return rel.check_rel("C10", tier, seed, 240, 4000, grammars=gs + lazy * 6 + strs + mix * 8,
                          vocab_choices=("syn", "bpe", "bpe", "lang"))
 
 
